@@ -304,7 +304,7 @@ def update_consumed(s):
     for ids, body, was_up in s.pending_consumes:
         n = bodies.count(body)
         if n == 1:
-            s.consumed.update(i for i in ids if i not in s.reissued)
+            s.consumed.update(ids)
         elif n > 1:
             s.consume_problems.append(("first-message-delivered-twice", "a first message was delivered %d times" % n))
         elif was_up or (a.up() and not srv.outbox[a.jid]):
